@@ -470,10 +470,11 @@ type Contracts struct {
 	Files  []string
 	Assumes []string
 	FieldInv map[string]bool // "pkg.Type.field": the field is never nil in an allocated object
+	ArrayInv map[string]bool // array heap key suffix (element type): elements are never nil
 }
 
 func newContracts() *Contracts {
-	return &Contracts{Funcs: map[string]*FuncContract{}, Preds: map[string]*PredDef{}, Specs: map[string]*SpecFunc{}, FieldInv: map[string]bool{}}
+	return &Contracts{Funcs: map[string]*FuncContract{}, Preds: map[string]*PredDef{}, Specs: map[string]*SpecFunc{}, FieldInv: map[string]bool{}, ArrayInv: map[string]bool{}}
 }
 
 func splitLabel(s string) (label, rest string) {
@@ -691,6 +692,13 @@ func (c *Contracts) loadFile(path string, pkgName string) error {
 				return fmt.Errorf("%s:%d: ghost Type field sort", path, j.line)
 			}
 			c.Ghosts = append(c.Ghosts, &GhostField{f[0], f[1], f[2]})
+			cur = nil
+		case "arrayinv":
+			f := strings.Fields(rest)
+			if len(f) != 2 || f[1] != "nonnil" {
+				return fmt.Errorf("%s:%d: arrayinv <element type> nonnil", path, j.line)
+			}
+			c.ArrayInv[pkgName+"|"+f[0]] = true
 			cur = nil
 		case "fieldinv":
 			f := strings.Fields(rest)
